@@ -1080,6 +1080,13 @@ pub fn check_c12(tier: &str) -> i32 {
         let st = explore(&x, &[connected_prefix()]);
         rep.phase(&format!("N={n:?}"), st, json!({"cfg": cfg}));
     }
+    // ties: a request queued (or a handle call made) in the very poll in which a deadline expires
+    {
+        let cfg = SmCfg { cap: 16, max_timeouts: Some(2), retry_min: 3, retry_max: 12, handles: 2, decode: (0, 0, 0) };
+        let pd = if thorough { 5 } else { 4 };
+        let st = explore_ties("C12", "TCLW", &cfg, pd, 2);
+        rep.phase("ties (two events in one poll)", st, json!({"cfg": cfg, "prefix_depth": pd, "runs_per_tie": 2}));
+    }
     // a structured family that is deeper than the explorer's bound: k timeouts on one connection,
     // the connection ends for another reason, reconnect, then timeouts until the limit: the count
     // must start from zero on every connection
